@@ -104,6 +104,12 @@ func init() {
 		Stubs:     []string{"github.com/fsnotify/fsnotify: simulated (the harness feeds the notifications an inotify watcher of the parent directory produces)", "Core.run: a consumer that re-reads the file on every signal and keeps the last complete content"},
 		LevelText: "seeded search over timings of file operations, notification delivery and consumer latency of the real watcher on the simulated clock; the oracle compares what the consumer loaded with the file's final content 10 simulated seconds after the last change",
 		LevelNote: "trusted: the notification sequences the harness emits per operation match Linux inotify semantics; Core's reaction is modelled by the consumer (level 2, the watcher inside Core, is not built)"})
+	reg(&propDef{ID: "C12", World: "w2", Chunk: 40, Level: "exploration", Quick: 1500, Thorough: 200000, QuickS: 90, ThorS: 1500,
+		Rule:      "1-3 concurrent API clients x 4-12 operations (read, global patch, path-defaults patch, path add/patch/replace/delete on 3 names plus an invalid name; unique maxReaders/readTimeout values, valid and invalid payloads: queue size not a power of two, zero timeout, payload size above the limit, recordDeleteAfter below the segment duration) x 0-100 ms gaps x seeded schedule; non-trivial = at least one edit was accepted; distinct = distinct (clients/edits/accepted, event-log hash)",
+		Real:      []string{"internal/core.Core: New, run, reloadConf, closeResources, createResources, doAPIConfig*, APIConfig* (instrumented)", "internal/conf: JSON decoding of the request bodies, Patch*/AddPath/ReplacePath/RemovePath/Validate, Clone", "internal/core path manager, internal/confwatcher, internal/recordcleaner, internal/auth (instrumented)"},
+		Stubs:     []string{"protocol servers, API/metrics/pprof/playback listeners: disabled by configuration (no sockets exist inside the simulation)", "HTTP layer of internal/api: the harness decodes the JSON body like the handlers do and calls the apiParent methods of Core directly", "github.com/fsnotify/fsnotify: simulated, silent"},
+		LevelText: "recorded invoke/return histories (stamped with the simulator's event sequence numbers) are checked with porcupine against a sequential model of the documented configuration semantics; a final read after quiescence ties the end state to the model",
+		LevelNote: "trusted: the reference model (worlds/w2/zz_model.go) tracks 4 global and 4 path parameters; other parameters are not compared; porcupine time-outs (20 s) are inconclusive and never reported"})
 	w3 := func(id, level, rule, text, note string, quick, thorough int, claims ...string) {
 		reg(&propDef{ID: id, World: "w3", Chunk: 10, Level: level, Quick: quick, Thorough: thorough, QuickS: 80, ThorS: 1500,
 			Rule: rule, Claims: claims, LevelText: text, LevelNote: note,
